@@ -392,46 +392,56 @@ Definition infer_default (p : gparam) (d0 : dval) (infer_type : bool) : outcome 
 
 Definition google_opt : str := L ", optional".
 
-(* _set_name_and_type((name, _param), infer_type, word_wrap) *)
-Definition set_name_and_type (name : str) (p : gparam) (infer_type word_wrap : bool)
-  : outcome (str * gparam) :=
-  do r1 <- (if endswith (L "kwargs") name || startswith (L "**") name then
-              let name' := lstrip_chars [ch 42] name in
-              let typ' := match g_typ p with
-                          | Missing => Has (L "Optional[dict]")
-                          | Has t => if str_eqb t (L "dict") then Has (L "Optional[dict]") else Has t
-                          | FNone => FNone
-                          end in
-              let d' := match g_default p with None => Some (DV (VStr NoneStr)) | Some d => Some d end in
-              Ok (name', mkG (g_doc p) typ' d')
-            else match g_default p with
-                 | Some d => do p' <- infer_default p d infer_type; Ok (name, p')
-                 | None => Ok (name, p)
-                 end);
-  let '(name1, p1) := r1 in
+(* _set_name_and_type((name, _param), infer_type, word_wrap), in three parts: the returned name; the
+   first half (kwargs convention / _infer_default); the second half (", optional", prose clean-up,
+   "Optional" prose) *)
+Definition kwargs_like (name : str) : bool := endswith (L "kwargs") name || startswith (L "**") name.
+
+Definition snt_name (name : str) : str :=
+  if kwargs_like name then lstrip_chars [ch 42] name else name.
+
+Definition snt_pre (name : str) (p : gparam) (infer_type : bool) : outcome gparam :=
+  if kwargs_like name then
+    let typ' := match g_typ p with
+                | Missing => Has (L "Optional[dict]")
+                | Has t => if str_eqb t (L "dict") then Has (L "Optional[dict]") else Has t
+                | FNone => FNone
+                end in
+    let d' := match g_default p with None => Some (DV (VStr NoneStr)) | Some d => Some d end in
+    Ok (mkG (g_doc p) typ' d')
+  else match g_default p with
+       | Some d => infer_default p d infer_type
+       | None => Ok p
+       end.
+
+Definition snt_post (p1 : gparam) (word_wrap : bool) : outcome gparam :=
   let typ2 := match g_typ p1 with
               | Has t => if endswith google_opt t
                          then Has (L "Optional[" ++ firstn (List.length t - List.length google_opt) t ++ L "]")
                          else Has t
               | x => x
               end in
-  let doc3 := match g_doc p1 with
-              | Has (c :: r) => Has (c :: r)
-              | _ => Missing                       (* del _param["doc"] when falsy *)
-              end in
-  match doc3 with
-  | Has doc =>
+  match g_doc p1 with
+  | Has (c :: r) =>
+    let doc := c :: r in
     let doc' := rstrip (if word_wrap then join [sp] (map strip (split [nl] doc)) else doc) in
     if startswith (L "(Optional)") doc' || startswith (L "Optional") doc' then
       match typ2 with
-      | Missing => Ok (name1, mkG (Has doc') typ2 (g_default p1))
+      | Missing => Ok (mkG (Has doc') typ2 (g_default p1))
       | FNone => Err AttributeError                (* None.startswith *)
-      | Has t => if startswith (L "Optional[") t then Ok (name1, mkG (Has doc') typ2 (g_default p1))
-                 else Ok (name1, mkG (Has doc') (Has (L "Optional[" ++ t ++ L "]")) (g_default p1))
+      | Has t => if startswith (L "Optional[") t then Ok (mkG (Has doc') typ2 (g_default p1))
+                 else Ok (mkG (Has doc') (Has (L "Optional[" ++ t ++ L "]")) (g_default p1))
       end
-    else Ok (name1, mkG (Has doc') typ2 (g_default p1))
-  | _ => Ok (name1, mkG doc3 typ2 (g_default p1))
+    else Ok (mkG (Has doc') typ2 (g_default p1))
+  | _ => Ok (mkG Missing typ2 (g_default p1))      (* del _param["doc"] when falsy *)
   end.
+
+Definition snt_param (name : str) (p : gparam) (infer_type word_wrap : bool) : outcome gparam :=
+  do p1 <- snt_pre name p infer_type; snt_post p1 word_wrap.
+
+Definition set_name_and_type (name : str) (p : gparam) (infer_type word_wrap : bool)
+  : outcome (str * gparam) :=
+  do p' <- snt_param name p infer_type word_wrap; Ok (snt_name name, p').
 
 (* OrderedDict(map(partial(_set_name_and_type, ...), params.items())) *)
 Definition set_names_and_types (ps : list (str * gparam)) (infer_type word_wrap : bool)
